@@ -608,4 +608,239 @@ def _skip():
     return SkipInput("input outside the slice")
 
 
-SPECS = [CumulativeFinalizeLayer(), FromGraphLayer(), MoreNSplits(), MoreDivisions(), MoreLayer(), SimpleShuffleLayer(), TaskShuffleTail()]
+def _concat_list_closed(n, part_out):
+    return Seq(n, lambda k: (NameStr("inter-", "self"), part_out, k), "list")
+
+
+# ---------------------------------------------------------------------------------------------
+class BroadcastJoinLayerBase(Spec):
+    """BroadcastJoin._layer: output i merges partition P[i] of the non-broadcast side with EVERY partition of the
+    broadcast side (pre-split by hash unless how='inner') and concatenates the results; the broadcast frame's piece
+    is the LEFT merge argument exactly when the broadcast side is the left input."""
+
+    file, qualname, props = "dask_expr/_merge.py", "BroadcastJoin._layer", ["C09", "C10", "C11", "C02"]
+    how, side = "inner", "left"
+
+    acc_closed = {
+        # _concat_list after t inner iterations: [(inter_name, part_out, 0) .. (inter_name, part_out, t-1)]
+        # (stated over the contract's own vocabulary, not the function's local names: part_out is P[outer index])
+        1: {0: lambda ex, fr, env: _concat_list_closed(env["_i"], ex.seq_of(env["self"].attrs["_partitions"], fr).get(env["_outer"][0]))},
+    }
+
+    def make_inputs(self, ex, sym, fr):
+        nl, nr = sym.int("n_left", lo=1), sym.int("n_right", lo=1)
+        P = sym.seq("P", kind="list")
+        left, right = _dep("self.left", nl), _dep("self.right", nr)
+        attrs = {
+            "left": left, "right": right, "_name": NameStr("", "self"), "_partitions": P, "how": self.how, "broadcast_side": self.side,
+        }
+        for a in ("indicator", "left_index", "right_index", "suffixes", "_meta", "left_on", "right_on"):
+            attrs[a] = Opaque("self." + a)
+        s = Obj("self", attrs, cls=("BroadcastJoin", "Merge", "Expr"))
+        return {"self": s, "P": P, "n_left": nl, "n_right": nr}
+
+    def ensures(self):
+        side, how = self.side, self.how
+
+        def parts(c, e):
+            own = c.attr(e["self"], "_name")
+            if isinstance(own, NameStr):
+                split, inter = NameStr("split-" + own.prefix, own.atom, own.suffix), NameStr("inter-" + own.prefix, own.atom, own.suffix)
+            else:
+                split, inter = "split-" + own, "inter-" + own
+            bc, ot = ("left", "right") if side == "left" else ("right", "left")
+            return own, split, inter, c.attr(e["self"], bc + "._name"), c.attr(e["self"], ot + "._name"), (e["n_left"] if side == "left" else e["n_right"]), c.attr(e["self"], ot + "_on")
+
+        def is_(c, a, b):
+            return (c.eq(a, b) is True) if c.symbolic else a == b
+
+        def outputs(c, e, r):
+            own, split, inter, bname, oname, bsize, _ = parts(c, e)
+            return c.forall(
+                0, c.len(e["P"]),
+                lambda i: c.holds_at(
+                    r, (own, i),
+                    lambda v: len(v) == 2 and c.And(c.eq(v[0], c.fn("_concat_wrapper")), c.eq(c.len(v[1]), bsize), c.forall(0, bsize, lambda j: c.eq(c.at(v[1], j), (inter, c.at(e["P"], i), j)))),
+                ),
+            )
+
+        def entries(c, e, r):
+            own, split, inter, bname, oname, bsize, other_on = parts(c, e)
+
+            def one(k, v):
+                if len(k) == 3 and is_(c, k[0], inter):
+                    po, j = k[1], k[2]
+                    piece = (oname, po) if how == "inner" else (c.fn("operator.getitem"), (split, po), j)
+                    bc = (bname, j)
+                    args = [bc, piece] if side == "left" else [piece, bc]
+                    return c.And(len(v) == 4, c.eq(v[0], c.fn("apply")), c.eq(v[1], c.fn("_merge_chunk_wrapper")), c.eq(c.len(v[2]), 2), c.eq(c.at(v[2], 0), args[0]), c.eq(c.at(v[2], 1), args[1]), j >= 0, j < bsize)
+                if len(k) == 2 and is_(c, k[0], split):
+                    return how != "inner" and c.And(len(v) == 4, c.eq(v[0], c.fn("_split_partition")), c.eq(v[1], (oname, k[1])), c.eq(v[2], other_on), c.eq(v[3], bsize))
+                return len(k) == 2 and c.And(c.eq(k[0], own), k[1] >= 0, k[1] < c.len(e["P"]))
+
+            return c.forall_entries(r, one)
+
+        def k2(c, e, r):
+            own, split, inter, bname, oname, bsize, _ = parts(c, e)
+            refs = c.forall(0, c.len(e["P"]), lambda i: c.forall(0, bsize, lambda j: c.defined(r, (inter, c.at(e["P"], i), j), witness=[i, j])))
+            if how == "inner":
+                return refs
+            return c.And(refs, c.forall(0, c.len(e["P"]), lambda i: c.defined(r, (split, c.at(e["P"], i)), witness=[i])))
+
+        return {"K1-outputs-concat-all-broadcast-pieces": outputs, "K3-merge-argument-order-and-splits": entries, "K2-referenced-keys-defined": k2}
+
+    def concrete_globals(self):
+        import dask_expr._merge as m
+
+        return vars(m)
+
+    def concrete_inputs(self):
+        for nb in (1, 2, 3):
+            for no in (1, 3):
+                for P in (None, [0], [no - 1, 0]):
+                    yield {"nb": nb, "no": no, "P": P}
+
+    def concrete_env(self, inputs):
+        return None
+
+    def run_concrete(self, inputs):
+        from dask_expr._merge import BroadcastJoin
+
+        nl, nr = (inputs["nb"], inputs["no"]) if self.side == "left" else (inputs["no"], inputs["nb"])
+        l, r = stub_frame(npartitions=nl, tag="L"), stub_frame(npartitions=nr, tag="R")
+        obj = BroadcastJoin(l, r, self.how, "x", "x", False, False, ("_x", "_y"), False, inputs["P"], self.side)
+        return {"self": obj, "P": list(obj._partitions), "n_left": nl, "n_right": nr}, obj._layer()
+
+    def inputs_from_model(self, model, sz, sym):
+        return None
+
+
+class BroadcastDep(Spec):
+    """Blockwise._broadcast_dep: only a single-partition operand of lower dimensionality is broadcast."""
+
+    file, qualname, props = "dask_expr/_expr.py", "Blockwise._broadcast_dep", ["C02", "C09", "C14"]
+
+    def make_inputs(self, ex, sym, fr):
+        np_, nd, snd = sym.int("dep_npartitions", lo=1), sym.int("dep_ndim", lo=0, hi=2), sym.int("self_ndim", lo=0, hi=2)
+        dep = Obj("dep", {"npartitions": np_, "ndim": nd, "_name": NameStr("", "dep")}, cls=("Expr",))
+        s = Obj("self", {"ndim": snd}, cls=("Blockwise", "Expr"))
+        return {"self": s, "dep": dep, "dep_npartitions": np_, "dep_ndim": nd, "self_ndim": snd}
+
+    def bind_call(self, ex, fr, env):
+        d = env["dep"]
+        return dict(env, dep_npartitions=d.attrs["npartitions"], dep_ndim=d.attrs["ndim"], self_ndim=env["self"].attrs["ndim"])
+
+    def ensures(self):
+        return {
+            "broadcast-iff-single-partition-of-lower-dim": lambda c, e, r: c.eq(c.truth(r), c.And(c.eq(e["dep_npartitions"], 1), e["dep_ndim"] < e["self_ndim"])),
+        }
+
+    def fresh_result(self, ex, fr, env):
+        from vf.pyvc.values import fresh_bool
+
+        return fresh_bool("bcast")
+
+    def concrete_inputs(self):
+        for n in (1, 2, 5):
+            for nd in (0, 1, 2):
+                for snd in (1, 2):
+                    yield {"n": n, "nd": nd, "snd": snd}
+
+    def _objs(self, inputs):
+        import pandas as pd
+
+        from dask_expr._expr import Abs
+
+        metas = {0: 1.5, 1: pd.Series([], dtype="float64", name="x"), 2: pd.DataFrame({"x": pd.Series([], dtype="float64")})}
+        dep = stub_frame(npartitions=inputs["n"], meta=metas[inputs["nd"]], tag="dep")
+        me = stub_frame(npartitions=max(inputs["n"], 3), meta=metas[inputs["snd"]], tag="me")
+        return Abs(me), dep
+
+    def run_concrete(self, inputs):
+        obj, dep = self._objs(inputs)
+        return {"self": obj, "dep": dep, "dep_npartitions": inputs["n"], "dep_ndim": inputs["nd"], "self_ndim": inputs["snd"]}, obj._broadcast_dep(dep)
+
+    def inputs_from_model(self, model, sz, sym):
+        return {"n": sym.read_int(model, "dep_npartitions"), "nd": sym.read_int(model, "dep_ndim"), "snd": max(1, sym.read_int(model, "self_ndim"))}
+
+
+class BlockwiseArg(Spec):
+    """Blockwise._blockwise_arg: an expression operand becomes the key of ITS partition i (or of its only partition
+    when it is broadcast) - always a partition that exists (K2); anything else is passed through unchanged."""
+
+    file, qualname, props = "dask_expr/_expr.py", "Blockwise._blockwise_arg", ["C02", "C09", "C05"]
+    case = {"kind": "expr"}
+
+    def cases(self):
+        return [{"kind": "expr"}, {"kind": "literal"}]
+
+    def make_inputs(self, ex, sym, fr):
+        from vf.pyvc.spec import as_callee, contract_fn
+
+        n, np_, nd, snd, i = sym.int("npartitions", lo=1), sym.int("dep_npartitions", lo=1), sym.int("dep_ndim", lo=0, hi=2), sym.int("self_ndim", lo=0, hi=2), sym.int("i")
+        arg = Obj("arg", {"npartitions": np_, "ndim": nd, "_name": NameStr("", "arg")}, cls=("Expr",)) if self.case["kind"] == "expr" else Opaque("literal")
+        inner = as_callee(BroadcastDep(), ["self", "dep"])
+
+        @contract_fn
+        def bdep(ex_, fr_, dep):
+            return inner(ex_, fr_, s, dep)
+
+        s = Obj("self", {"ndim": snd, "npartitions": n, "_broadcast_dep": bdep}, cls=("Blockwise", "Expr"))
+        return {"self": s, "arg": arg, "i": i, "npartitions": n, "dep_npartitions": np_, "dep_ndim": nd, "self_ndim": snd}
+
+    def requires(self):
+        return {
+            "index-in-range": lambda c, e: c.And(e["i"] >= 0, e["i"] < e["npartitions"]),
+            # Blockwise._divisions asserts that every operand that is not broadcast has the divisions of the
+            # reference operand, hence the same number of partitions (expressions are aligned before they are combined)
+            "operands-co-aligned": lambda c, e: c.Or(c.And(c.eq(e["dep_npartitions"], 1), e["dep_ndim"] < e["self_ndim"]), c.eq(e["dep_npartitions"], e["npartitions"])),
+        }
+
+    def ensures(self):
+        if self.case["kind"] == "literal":
+            return {"literal-passed-through": lambda c, e, r: r is e["arg"] if c.symbolic else r == e["arg"]}
+        name = lambda c, e: c.attr(e["arg"], "_name")
+        return {
+            "K2-existing-partition-of-the-operand": lambda c, e, r: c.And(len(r) == 2, c.eq(r[0], name(c, e)), r[1] >= 0, r[1] < e["dep_npartitions"]),
+            "partition-i-unless-broadcast": lambda c, e, r: c.eq(r[1], c.ite(c.And(c.eq(e["dep_npartitions"], 1), e["dep_ndim"] < e["self_ndim"]), 0, e["i"])),
+        }
+
+    def concrete_inputs(self):
+        for k in BroadcastDep().concrete_inputs():
+            for i in (0, 2):
+                yield dict(k, i=i, kind="expr")
+        yield {"kind": "literal", "i": 1, "n": 1, "nd": 1, "snd": 1}
+
+    def concrete_env(self, inputs):
+        return None
+
+    def run_concrete(self, inputs):
+        self.case = {"kind": inputs["kind"]}
+        obj, dep = BroadcastDep()._objs(inputs)
+        if inputs["kind"] == "literal":
+            return {"arg": "lit"}, obj._blockwise_arg("lit", inputs["i"])
+        bc = inputs["n"] == 1 and inputs["nd"] < inputs["snd"]
+        if not bc and inputs["n"] != obj.npartitions:
+            from vf.pyvc.spec import SkipInput
+
+            raise SkipInput("operands not co-aligned")
+        return {"arg": dep, "i": inputs["i"], "npartitions": obj.npartitions, "dep_npartitions": inputs["n"], "dep_ndim": inputs["nd"], "self_ndim": inputs["snd"]}, obj._blockwise_arg(dep, inputs["i"])
+
+    def inputs_from_model(self, model, sz, sym):
+        return None
+
+
+def _scenarios():
+    out = []
+    for how in ("inner", "left", "right", "leftsemi"):
+        for side in ("left", "right"):
+            # Merge.is_broadcast_join (contract in decisions.py) never broadcasts the side whose unmatched rows the join
+            # keeps; the layer itself is checked for every combination the constructor accepts
+            name = f"BroadcastJoinLayer_{how}_{side}"
+            cls = type(name, (BroadcastJoinLayerBase,), {"how": how, "side": side, "scenario": f"how={how},broadcast_side={side}", "__module__": __name__})
+            globals()[name] = cls
+            out.append(cls())
+    return out
+
+
+SPECS = [CumulativeFinalizeLayer(), FromGraphLayer(), MoreNSplits(), MoreDivisions(), MoreLayer(), SimpleShuffleLayer(), TaskShuffleTail(), BroadcastDep(), BlockwiseArg()] + _scenarios()
